@@ -70,6 +70,10 @@ func StdEnv() []EnvVal {
 		{"multis", system.Collection{system.String("a"), system.String("b")}, "multi"},
 		{"multib", system.Collection{system.Boolean(true), system.Boolean(false)}, "multi"},
 		{"emptyc", system.Collection{}, "empty"},
+		{"dups", system.Collection{system.Integer(1), system.Integer(1), system.Integer(2)}, "multi"},
+		{"allt", system.Collection{system.Boolean(true), system.Boolean(true)}, "multi"},
+		{"allf", system.Collection{system.Boolean(false), system.Boolean(false)}, "multi"},
+		{"pext", &dtpb.HumanName{Family: &dtpb.String{Value: "Ext"}, Extension: []*dtpb.Extension{{Url: &dtpb.Uri{Value: "http://e/x"}, Value: &dtpb.Extension_ValueX{Choice: &dtpb.Extension_ValueX_Boolean{Boolean: &dtpb.Boolean{Value: true}}}}, {Url: &dtpb.Uri{Value: "http://e/y"}}}}, "elem-complex"},
 		{"name", hn("Smith", "Ann"), "elem-complex"},
 		{"names", system.Collection{hn("Smith", "Ann"), hn("Jones")}, "multi"},
 		{"fstr", &dtpb.String{Value: "héllo"}, "elem-prim"},
